@@ -85,7 +85,7 @@ CLAIMED = {
              note="spec/t10_codes.py trusted; SCC-2 service actions are oracle gaps"),
  "C10": dict(text="Bounded symbolic verification: converter.py runs on solver variables including a symbolic contiguous "
                   "mask; every algebraic law is an unsat query per path. Holds for all values inside the stated bounds "
-                  "(mask <= 136 bits, buffers <= 22 bytes); not a proof beyond them.",
+                  "(mask <= 264 bits, buffers <= 38 bytes); not a proof beyond them.",
              ref="3/C10", note="z3 BV semantics; symx value domain (validated per run by differential self-test and the "
                                "repo tests under instrumentation); masks with holes outside the claim"),
 }
